@@ -107,6 +107,7 @@ template <class Mesh> void HistRun<Mesh>::op_clear(R &r, const Op &q) {
         if (mp.kind != KM) mp.val.clear();   // the mesh entity itself survives clear()
         if (cp) { mp.shared = false; mp.persistent = false; }
     }
+    if (cp) r.pos_persistent = false;
     st.add(cp ? "probe_clear_with_props" : "probe_clear_keep_props");
 }
 
@@ -165,7 +166,7 @@ template <class Mesh> void HistRun<Mesh>::op_bad(R &r, const Op &q) {
     if (q.kind == "BAD_FACE") {
         std::vector<int> lf = m.live_uids(BF);
         std::vector<int> hes;
-        int defect = q.a[1] % 5;
+        int defect = q.a[1] % 6;
         if (lf.empty()) return;
         hes = m.hf_hes(2 * pick(lf, q.a[0]) + (q.a[2] & 1));
         switch (defect) {
@@ -173,6 +174,7 @@ template <class Mesh> void HistRun<Mesh>::op_bad(R &r, const Op &q) {
         case 1: hes.push_back(hes[0]); break;                                                 // repeated halfedge (closed twice around or open)
         case 2: hes[0] ^= 1; break;                                                           // one halfedge reversed
         case 3: std::reverse(hes.begin(), hes.end()); break;                                  // reversed order without flipping
+        case 5: hes.clear(); st.add("probe_bad_face_empty_list"); break;                          // the empty list
         default: { std::vector<int> le = m.live_uids(BE); if (!le.empty()) hes.push_back(2 * pick(le, q.a[3])); break; }  // foreign edge appended
         }
         st.add(loop_closed(r, hes) ? "probe_bad_face_still_closed" : "probe_bad_face_open");
@@ -188,8 +190,9 @@ template <class Mesh> void HistRun<Mesh>::op_bad(R &r, const Op &q) {
         for (auto &fc : T.faces) { std::vector<int> cyc; for (int i : fc) cyc.push_back(vs[i]); int hf = obtain_halfface(r, cyc); if (hf < 0) return; hfs.push_back(hf); }
         if (KID == 2) hfs = {hfs[0], hfs[1], hfs[2], hfs[4], hfs[3], hfs[5]};
         before = take_snap(*r.mesh);
-        int defect = q.a[1] % 5;
+        int defect = q.a[1] % 6;
         switch (defect) {
+        case 5: hfs.clear(); st.add("probe_bad_cell_empty_list"); break;   // the empty list
         case 0: hfs.pop_back(); break;                       // missing face
         case 1: hfs.push_back(hfs[0]); break;                // doubled halfface
         case 2: hfs[0] ^= 1; break;                          // one halfface with the wrong orientation
@@ -230,7 +233,8 @@ template <class Mesh> void HistRun<Mesh>::op_prop(R &r, const Op &q) {
     auto drop_slot = [&](int s) { held[s].h.reset(); held[s].rep = -1; held[s].mid = -1; };
     if (k == "P_REQUEST" || k == "P_CREATE_SHARED" || k == "P_CREATE_PERSISTENT" || k == "P_CREATE_PRIVATE" || k == "P_GET" || k == "P_EXISTS") {
         int kind = q.a[0] % 7, type = q.a[1] % NTYPES, nm = q.a[2] % 5, slot = q.a[3] % NHELD;
-        if ((k == "P_CREATE_SHARED" || k == "P_CREATE_PERSISTENT") && nm == 0) nm = 1;
+        bool anon_shared = (k == "P_CREATE_SHARED" || k == "P_CREATE_PERSISTENT") && nm == 0;
+        if (anon_shared && !ctx.is("C14")) { nm = 1; anon_shared = false; }
         std::string name = NAME_POOL[nm];
         if (plan.c("uniq_names", 0) && nm != 0) name += std::to_string(q.a[2] % 97);
         int call = k == "P_REQUEST" ? R_REQUEST : k == "P_CREATE_SHARED" ? R_CREATE_SHARED : k == "P_CREATE_PERSISTENT" ? R_CREATE_PERSISTENT
@@ -241,7 +245,18 @@ template <class Mesh> void HistRun<Mesh>::op_prop(R &r, const Op &q) {
         if (salt_blocks.size() > 6) salt_blocks.erase(salt_blocks.begin(), salt_blocks.begin() + 3);
         int defn = 1000000 + next_uniq();
         bool ex = false;
-        std::unique_ptr<PropHolderBase> h = reg_call(*r.mesh, call, kind, type, name, defn, &ex);
+        std::unique_ptr<PropHolderBase> h;
+        if (anon_shared) {
+            // "shared implies named": an anonymous shared / persistent property must be refused (exception or no value), never created
+            size_t before = n_props_of(*r.mesh, kind);
+            bool threw = false;
+            try { h = reg_call(*r.mesh, call, kind, type, name, defn, &ex); } catch (const std::runtime_error &) { threw = true; }
+            st.add("probe_create_shared_with_empty_name");
+            if (h || n_props_of(*r.mesh, kind) != before) ctx.fail(OW, "create-anonymous-shared", k + "(\"\") created an anonymous " + (call == R_CREATE_PERSISTENT ? "persistent" : "shared") + " property");
+            (void)threw;
+            return;
+        }
+        h = reg_call(*r.mesh, call, kind, type, name, defn, &ex);
         if (call == R_EXISTS) {
             if (ex != !found.empty()) ctx.fail(OW, "lookup", "property_exists(" + name + ") = " + std::to_string(ex));
             return;
@@ -276,11 +291,20 @@ template <class Mesh> void HistRun<Mesh>::op_prop(R &r, const Op &q) {
         held[slot].h->model_id = mid;
         return;
     }
+    if (k == "P_POS_PERSIST") {
+        bool on = q.a[0] & 1;
+        if (!r.mesh->vertex_positions().shared()) return;   // after clear(true) / reading a file the position property is private: set_persistent would (rightly) throw
+        r.mesh->set_persistent(r.mesh->vertex_positions(), on);
+        r.pos_persistent = on;
+        st.add("probe_position_made_persistent");
+        return;
+    }
     int slot = q.a[0] % NHELD;
     if (k == "P_CLEAR_KIND" || k == "P_CLEAR_ALL") {
         int kind = q.a[0] % 7;
         if (k == "P_CLEAR_ALL") r.mesh->clear_all_props(); else clear_props_of(*r.mesh, kind);
         for (auto &mp : r.props) if (mp.attached && (k == "P_CLEAR_ALL" || mp.kind == kind)) { mp.shared = false; mp.persistent = false; }
+        if (k == "P_CLEAR_ALL" || kind == KV) r.pos_persistent = false;
         st.add("probe_clear_props");
         return;
     }
